@@ -85,6 +85,7 @@ Theorem C09_outcome : forall c s i k, reach c s -> nth_error (calls s) i = Some 
     | Reply p => In (id_of i, p) (sent s)
     | Timeout => k_dl k <= k_ret k
     | Error => ~ In i (sendq s) /\ ~ In i (wire s)
+    | Sent => k_ow k = true /\ (In i (sendq s) \/ In i (wire s))
     end.
 Proof. exact CallLifeProofs.outcome_classes. Qed.
 Print Assumptions C09_outcome.
